@@ -1214,6 +1214,16 @@ func (a *action) checkResolvable() {
 			if !a.checkFileContent("resolved-handle", where, l2, want) {
 				return
 			}
+			// Damaged handles: refused, or still this blob's bytes.
+			for _, dmg := range [][]byte{fh[:len(fh)-1], append(append([]byte(nil), fh[:len(fh)-1]...), 7)} {
+				child, s := e.nfsAlloc.ResolveHandle(bytes.NewBuffer(append([]byte(nil), dmg...)))
+				a.h("resolve-damaged-handle", statusName(s))
+				if _, l3 := child.GetPair(); s == virtual.StatusOK && l3 != nil {
+					if !a.checkFileContent("resolved-damaged-handle", where, l3, want) {
+						return
+					}
+				}
+			}
 		}
 		a.c.situation("resolvable-cas-file-checked")
 	}
@@ -1417,7 +1427,19 @@ func (a *action) opModify(p []string, m *mnode, d virtual.Directory) {
 		}
 		n := dirs[a.rng.IntN(len(dirs))]
 		c := m.children[n]
-		_, s := d.VirtualRemove(e.ctx, comp(n), true, false)
+		var s virtual.Status
+		if pd != nil && a.rng.IntN(2) == 0 {
+			switch err := pd.Remove(comp(n)); {
+			case err == nil:
+				s = virtual.StatusOK
+			case err == syscall.ENOTEMPTY:
+				s = virtual.StatusErrNotEmpty
+			default:
+				s = virtual.StatusErrIO
+			}
+		} else {
+			_, s = d.VirtualRemove(e.ctx, comp(n), true, false)
+		}
 		a.logf("rmdir %s %q (bad=%v) -> %s", pathString(p), n, c.bad(), statusName(s))
 		a.h("rmdir", statusName(s))
 		a.noteLoaded(p, m)
